@@ -270,6 +270,9 @@ func cmdCheck(args []string) int {
 	for i, v := range viols {
 		id := fmt.Sprintf("v%d", i)
 		violByID[id] = v
+		if v.Kind == "nontermination" {
+			continue // replayed alone, beside a watchdog (below): it would hang the common run
+		}
 		cases = append(cases, nativeCase{Pkg: v.Pkg, ID: id, Harness: v.Harness, Params: v.Params, Inputs: v.Model})
 	}
 	validated, mismatches := 0, 0
